@@ -113,3 +113,21 @@ def f10_order_none_string_compare() -> bool:
         out = execute(lab.zdir, lab.db_url, "S note W - O none")
         lines = [ln for ln in out.split("\n") if ln.startswith("- ")]
         return lines.index("- 240110#Aa item 10") < lines.index("- 240110#A2 item 2")
+
+
+def f23_kinds_pool_across_reference() -> bool:
+    import logging
+
+    logging.disable(logging.CRITICAL)
+    from checks import c03, c15
+    from checks.zdirlab import Lab
+    from zorg.service.swog import execute
+
+    with Lab() as lab:
+        for rel, t in c03.PAGES.items():
+            lab.write(rel, t)
+        lab.create()
+        lab.write("zoq/s.zoq", "# W #work o\n")
+        a = c15.zids(execute(lab.zdir, lab.db_url, "S note W - {s} G none"))
+        b = c15.zids(execute(lab.zdir, lab.db_url, "S note W - (#work o) G none"))
+        return a != b
